@@ -34,6 +34,8 @@ type BuildSpec struct {
 			Pg int `json:"pg"`
 		} `json:"c"`
 	} `json:"early"`
+	// Reuse: one ProcessBuilder is used for all processes of the build (after Out it starts a new process)
+	Reuse bool `json:"reuse"`
 	Procs []struct {
 		Acts []struct {
 			Type   string `json:"type"`
@@ -99,8 +101,12 @@ func BuildRun(run int, b BuildSpec) ValueResult {
 	db := schema.NewDefinitionsBuilder()
 	presetIds := map[string]bool{}
 	hasSub := false
+	shared := schema.NewProcessBuilder()
 	for pi, p := range b.Procs {
-		pb := schema.NewProcessBuilder()
+		pb := shared
+		if !b.Reuse {
+			pb = schema.NewProcessBuilder()
+		}
 		for ai, a := range p.Acts {
 			act := newActivity(a.Type)
 			if a.Preset {
